@@ -1,6 +1,6 @@
 """C05 Client enforces request deadlines, never early — arming / expiry structure."""
 from engine.facts import CannotDecide, callee_is, path_matches
-from .common import Table, client_dispatch_poll, reachable_local_fns, norm_path
+from .common import MAP_REMOVALS, Table, client_dispatch_poll, reachable_local_fns, norm_path
 from .deadlines import arming_rules, expiry_rules
 from .C01 import value_shapes
 
@@ -63,7 +63,7 @@ def run(ctx):
         for bb, t in g.calls():
             if callee_is(t, 'oneshot::Sender::send'):
                 sr = P.root(P.operand(g, t['args'][0], at=bb))
-                ok = bool(sr) and all(P.is_call(r, 'HashMap::remove', 'HashMap::remove_entry') and sender_field in P.fpath(p) for r, p in sr)
+                ok = bool(sr) and all(P.is_call(r, *MAP_REMOVALS) and sender_field in P.fpath(p) for r, p in sr)
                 R.ob('C05.expiry', ('client table expiry', 'completes the expired entry'), ok, 'the expiry error is sent on the sender of the entry removed for the fired timer', [g.loc(t)])
     # expiry result shape: Err only (shared with C01.5)
     for g in table.bodies(exp):
